@@ -357,6 +357,7 @@ func checkC12(c *Ctx) {
 			"encoders fill it from "+setStr(a)+" but decoders deliver it to "+setStr(b)+" (a field is dropped or crossed)")
 	}
 
+	c12OrderAndPresence(c, toFns, fromFns)
 	c12Contribution(c)
 	c12Identity(c)
 	c12BytesToSign(c)
@@ -556,4 +557,144 @@ func c12Contribution(c *Ctx) {
 	}
 	c.Check(len(notW) == 0 && len(notR) == 0 && nf > 0, "C12.1/coverage", "kauripb.Contribution", p.Pos(n.Obj().Pos()),
 		"all "+itoa(nf)+" fields are written by SendContributionToParent and read by onContributionRecv", "not written: {"+join(notW)+"}; not read: {"+join(notR)+"}")
+}
+
+// c12OrderAndPresence: converters neither reorder repeated elements (signature bytes are
+// concatenated in list order, so a reordering changes hashes and bytes-to-sign) nor make the
+// presence of an optional part depend on anything but that part being present.
+func c12OrderAndPresence(c *Ctx, toFns, fromFns []*ssa.Function) {
+	p := c.P
+	all := append(append([]*ssa.Function{}, toFns...), fromFns...)
+	for _, fn := range all {
+		// (1) no sorting / permutation anywhere below a converter
+		var sorts []string
+		seen := map[*ssa.Function]bool{}
+		var visit func(f *ssa.Function, depth int)
+		visit = func(f *ssa.Function, depth int) {
+			if f == nil || seen[f] || depth > 4 {
+				return
+			}
+			seen[f] = true
+			if f.Blocks == nil {
+				return
+			}
+			eachInstr(f, func(in ssa.Instruction) {
+				if mc, ok := in.(*ssa.MakeClosure); ok {
+					if cl, ok := mc.Fn.(*ssa.Function); ok {
+						visit(cl, depth+1)
+					}
+				}
+				ci, ok := in.(ssa.CallInstruction)
+				if !ok {
+					return
+				}
+				cal := ci.Common().StaticCallee()
+				if cal == nil {
+					return
+				}
+				name := cal.String()
+				if strings.HasPrefix(name, "slices.Sort") || strings.HasPrefix(name, "sort.") || strings.HasPrefix(name, "slices.Reverse") || strings.HasPrefix(name, "math/rand") {
+					sorts = append(sorts, name+" in "+shortName(f)+" ("+p.InstrPos(in)+")")
+					return
+				}
+				if inModule(funcPkgPath(cal)) && !p.isGenerated(cal) {
+					visit(cal, depth+1)
+				}
+			})
+		}
+		visit(fn, 0)
+		c.Check(len(sorts) == 0, "C12.6/order", fn.Name()+": element order is preserved", p.FuncPos(fn),
+			"no sorting, reversing or shuffling below this converter: repeated elements keep the sender's order (signature lists are hashed in list order)",
+			"the converter reorders elements: "+join(sorts)+" -- a certificate's bytes, and with them block hashes and bytes-to-sign, change in transit")
+	}
+	// (2) presence: a store of an optional part depends only on that part being present
+	for _, fn := range all {
+		fl := NewFlow(p, fn)
+		isTo := strings.HasSuffix(fn.Name(), "ToProto")
+		var bad []string
+		n := 0
+		eachInstr(fn, func(in ssa.Instruction) {
+			var facts FactSet
+			switch x := in.(type) {
+			case *ssa.Store:
+				fa, ok := x.Addr.(*ssa.FieldAddr)
+				if !ok {
+					return
+				}
+				if isTo && !isPbMsg(fa.X.Type()) {
+					return
+				}
+				if !isTo && !isDomainStruct(fa.X.Type()) {
+					return
+				}
+				facts = fl.At(in)
+			case *ssa.Call:
+				// decoders deliver optional parts through setters (SetQC, SetTC, SetAggQC)
+				cal := x.Call.StaticCallee()
+				if isTo || cal == nil || !strings.HasPrefix(cal.Name(), "Set") || !isDomainPkg(funcPkgPath(cal)) {
+					return
+				}
+				facts = fl.At(in)
+			default:
+				return
+			}
+			n++
+			for f := range facts {
+				if f.Op == "after" {
+					continue
+				}
+				if !presenceLike(f, isTo) {
+					bad = append(bad, p.InstrPos(in)+": "+f.String())
+				}
+			}
+		})
+		if n == 0 {
+			continue
+		}
+		c.Check(len(bad) == 0, "C12.6/presence", fn.Name()+": optional parts are converted whenever present", p.FuncPos(fn),
+			"every field store / setter call depends at most on the presence of the part it converts (and on the signature variant)",
+			"a part is converted only under an additional condition, so some objects lose it in transit: "+join(bad))
+	}
+}
+
+// presenceLike: facts a converter may legitimately branch on.
+func presenceLike(f Fact, isTo bool) bool {
+	simple := func(k string) bool {
+		// exactly one accessor / getter / field step on the converted object p0
+		k = strings.TrimSuffix(strings.TrimSuffix(k, "#1"), "#0")
+		if strings.HasPrefix(k, "p0.") || strings.HasPrefix(k, "p0->") {
+			return strings.Count(k, "->")+strings.Count(k[2:], ".hs") <= 1 || !strings.Contains(k[3:], "(")
+		}
+		if strings.HasSuffix(k, "(p0)") && strings.Count(k, "(") <= 2 {
+			return true
+		}
+		return false
+	}
+	switch f.Op {
+	case "true", "false":
+		if strings.HasPrefix(f.L, "assert[") {
+			return true // signature variant
+		}
+		if strings.HasPrefix(f.L, "v@") && strings.HasSuffix(f.L, "#0") {
+			return true // range-over-map iteration flag
+		}
+		return simple(f.L)
+	case "!=", "==":
+		if f.L == "nil" || f.R == "nil" {
+			k := nonNil(f)
+			if k == "p0" || strings.HasPrefix(k, "alloc@") || strings.Contains(k, "err") {
+				return true
+			}
+			// error of a restoring library call (BLS decompress)
+			if strings.HasSuffix(k, "#1") && strings.Contains(k, "Restore") {
+				return true
+			}
+			return simple(k)
+		}
+		return false
+	case "<", "<=":
+		// loop bounds over repeated fields
+		return strings.Contains(f.L, "phi@") || strings.Contains(f.R, "phi@") || strings.Contains(f.L, "builtin len(") || strings.Contains(f.R, "builtin len(")
+	}
+	return false
 }
